@@ -102,7 +102,7 @@ def expected(cfg, cli_roots):
         name = c.get('name', first.get('dns', first.get('ip')))
         for ch in '*:/':
             name = name.replace(ch, '_')
-        kt = c.get('key_type', 'rsa2048').replace('_', '-')
+        kt = c.get('key_type', 'rsa2048').lower().replace('_', '-')
         cid = '%s_%s' % (name, kt)
         if cid in out:
             return None, 'duplicate certificate id %s' % cid
@@ -329,6 +329,16 @@ def gen_tree(d, i, r, mode):
             dup = dict(c0)
             dup.setdefault('name', c0['identifiers'][0]['dns'])
             c0.setdefault('name', dup['name'])
+            # the same id may be spelled differently: ecdsa_p256 / ecdsa-p256 / ECDSA_P256, or the default left out
+            how = r.choice(['same', 'dash', 'upper', 'default'])
+            if how == 'dash':
+                dup['key_type'] = c0['key_type'].replace('_', '-')
+            elif how == 'upper':
+                dup['key_type'] = c0['key_type'].upper()
+            elif how == 'default':
+                c0.pop('key_type', None)
+                dup['key_type'] = r.choice(['rsa2048', 'RSA2048'])
+            desc['dup_spelling'] = how
             content[place()].setdefault('certificate', []).append(dup)
     for f in files:
         with open(root + '/' + f, 'w') as fh:
@@ -395,9 +405,9 @@ def run(tier):
             chk.count('files_in_tree_%d' % desc.get('files', 1))
             if reject:
                 chk.count('must_reject')
-                chk.distinct.add(('reject', desc.get('broken')))
+                chk.distinct.add(('reject', desc.get('broken'), desc.get('dup_spelling')))
                 if rec['load_ok']:
-                    chk.violation('C14|accepted|%s' % desc.get('broken'), 'configuration with %s loads although it must be rejected at start-up' % reject,
+                    chk.violation('C14|accepted|%s%s' % (desc.get('broken'), ('|spelling=' + desc['dup_spelling']) if desc.get('dup_spelling') else ''), 'configuration with %s loads although it must be rejected at start-up' % reject,
                                   witness, os.path.dirname(main))
                 continue
             if not rec['load_ok']:
